@@ -216,6 +216,31 @@ func (st *ConcState) IsNil(v ssa.Value) (isNil, known bool) {
 		}
 	case *ssa.MakeInterface, *ssa.Alloc, *ssa.Function, *ssa.MakeClosure, *ssa.Global, *ssa.MakeSlice, *ssa.MakeMap, *ssa.MakeChan, *ssa.FieldAddr, *ssa.IndexAddr:
 		return false, true
+	case *ssa.Call:
+		// error constructors and combinators whose nil-ness follows from their arguments
+		if sc := x.Call.StaticCallee(); sc != nil && !x.Call.IsInvoke() {
+			switch sc.String() {
+			case "fmt.Errorf", "errors.New":
+				return false, true
+			case "go.uber.org/multierr.Append", "go.uber.org/multierr.Combine", "errors.Join":
+				if sc.Signature.Variadic() {
+					break
+				}
+				allNil := true
+				for _, a := range x.Call.Args {
+					n, known := st.IsNil(a)
+					if known && !n {
+						return false, true
+					}
+					if !known {
+						allNil = false
+					}
+				}
+				if allNil {
+					return true, true
+				}
+			}
+		}
 	}
 	return false, false
 }
